@@ -19,6 +19,9 @@ type pathFlow struct {
 	srcRoot types.Object // every path under this object is a source labelled "R:<path>"
 	changed bool
 	ctl     map[string]bool // labels read in conditions
+	// precise mode: call results carry labels only when callFlow says so, and calls have no write effects
+	precise  bool
+	callFlow func(call *ast.CallExpr, f *pathFlow) (map[string]bool, bool)
 }
 
 type labelled map[string]map[string]bool // remainder path -> labels
@@ -165,6 +168,14 @@ func (f *pathFlow) eval(e ast.Expr) labelled {
 			}
 			return whole(out)
 		}
+		if f.precise {
+			if f.callFlow != nil {
+				if ls, ok := f.callFlow(x, f); ok {
+					return whole(ls)
+				}
+			}
+			return labelled{}
+		}
 		out := map[string]bool{}
 		for _, a := range x.Args {
 			out = union(out, flatten(f.eval(a)))
@@ -260,7 +271,7 @@ func (f *pathFlow) assignExpr(lhs ast.Expr, v labelled) {
 // callEffects models writes through pointer arguments and pointer receivers.
 func (f *pathFlow) callEffects(call *ast.CallExpr) {
 	c := f.c
-	if c.isConversion(call) {
+	if c.isConversion(call) || f.precise {
 		return
 	}
 	isJSONUnmarshal := c.isPkgFunc(call, "encoding/json", "Unmarshal")
